@@ -42,6 +42,10 @@ MONITORS = {
     "C12": {"bin": "mon_c12", "quick": 20000, "thorough": 1000000,
             "what": "real Changer::{simple, enter_joint, leave_joint} + ProgressTracker::apply_conf vs the set-based reference semantics under random change sequences (<= 8 changes, "
                     "lists of <= 4 single changes over ids 0..6, repeated ids included): result == model, invariant of C12, rejected => untouched, and the ConfState round trip through Raft::new"},
+    # the quorum test behind the release of pending reads (ProgressTracker::has_quorum) over joint configurations
+    "C08": {"bin": "mon_c11", "quick": 20000, "thorough": 600000,
+            "what": "ProgressTracker::has_quorum (the test that releases pending reads) of the real crate vs the count-based definition of a joint quorum, "
+                    "voter sets of 1..10 members, joint configurations, every subset of acknowledging members"},
     "C11": {"bin": "mon_c11", "quick": 20000, "thorough": 600000,
             "what": "ProgressTracker::maximal_committed_index / tally_votes of the real crate vs the count-based quorum definitions, "
                     "voter sets of 1..10 members, joint configurations, group commit"},
